@@ -1,3 +1,4 @@
+import json
 from dataclasses import dataclass
 from dataclasses import field as field_
 from dataclasses import replace
@@ -38,6 +39,7 @@ from apischema.conversions.visitor import (
     Serialization,
     SerializationVisitor,
 )
+from apischema.deserialization import deserialize
 from apischema.graphql.interfaces import get_interfaces, is_interface
 from apischema.graphql.resolvers import (
     Resolver,
@@ -538,13 +540,19 @@ class InputSchemaBuilder(
             field_type = Optional[field_type]
         elif field_default is not graphql.Undefined:
             try:
-                default = serialize(
+                default = serialize(field_type, field_default, aliaser=self.aliaser)
+                # the default is a value of the field, the input is the source of
+                # its deserialization; if they don't match (conversion, constraints)
+                # no default is declared, Python one being used when omitted
+                deserialize(
                     field_type,
-                    field_default,
+                    json.loads(json.dumps(default)),
                     aliaser=self.aliaser,
                     conversion=field.deserialization,
+                    default_conversion=self.default_conversion,
                 )
             except Exception:
+                default = graphql.Undefined
                 field_type = Optional[field_type]
         factory = self.visit_with_conv(field_type, field.deserialization)
         return lambda: graphql.GraphQLInputField(
@@ -749,7 +757,17 @@ class OutputSchemaBuilder(
                             fall_back_on_any=False,
                             check_type=True,
                         )
+                        # same as input fields: the default must be a valid input
+                        deserialize(
+                            param_type,
+                            json.loads(json.dumps(default)),
+                            aliaser=self.aliaser,
+                            conversion=param_field.deserialization,
+                            default_conversion=self.input_builder.default_conversion,
+                            schema=param_field.schema,
+                        )
                     except Exception:
+                        default = graphql.Undefined
                         param_type = Optional[param_type]
                 arg_factory = self.input_builder.visit_with_conv(
                     param_type, param_field.deserialization
